@@ -58,8 +58,8 @@ func (c10) ID() string { return "C10" }
 
 func init() { register(c10{}) }
 
-var c10Bodies = []string{"val", "gate-ctx", "gate-ign", "throw", "sleep", "spin", "fail", "deref-other", "nil", "false", "coll", "gate-then-throw", "call-fn", "nested-future", "error-value", "error-value-gate", "try-gate-ctx", "try-sleep"}
-var c10BodyW = []int{3, 4, 3, 2, 3, 2, 1, 1, 1, 1, 1, 2, 1, 1, 2, 1, 3, 1}
+var c10Bodies = []string{"val", "gate-ctx", "gate-ign", "throw", "sleep", "spin", "fail", "deref-other", "nil", "false", "coll", "gate-then-throw", "call-fn", "nested-future", "error-value", "error-value-gate", "try-gate-ctx", "try-sleep", "throw-through-two-futures", "fail-through-two-futures"}
+var c10BodyW = []int{3, 4, 3, 2, 3, 2, 1, 1, 1, 1, 1, 2, 1, 1, 2, 1, 3, 1, 2, 1}
 var c10OpKinds = []string{"deref", "done?", "cancelled?", "cancel", "deref-deadline", "nap"}
 var c10OpW = []int{5, 4, 3, 2, 3, 1}
 
@@ -373,6 +373,11 @@ func (c10) Run(tp *Tape, opt RunOpt) *RunOut {
 			f.Src, f.Normal, f.NormalOK = "(future "+tr+" (try (sleep "+strconv.Itoa(f.SleepMs)+") (finally nil)) "+k+")", k, true
 		case "nested-future":
 			f.Src, f.Normal, f.NormalOK = "(future "+tr+" @(future (do (spin 2) "+k+")))", k, true
+		case "throw-through-two-futures":
+			// the error has passed through two derefs before it becomes this future's outcome
+			f.Src, f.Normal, f.NormalOK, f.NormalErr = "(future "+tr+" @(future @(future (throw "+k+"))))", "#thrown<"+k+">", true, true
+		case "fail-through-two-futures":
+			f.Src, f.Normal, f.NormalOK, f.NormalErr = "(future "+tr+" (deref (future (do (spin 1) (deref (future (nth [1 2] "+k+")))))))", "#goerr<nth: index out of range>", true, true
 		}
 		w.futs = append(w.futs, f)
 	}
